@@ -27,6 +27,7 @@ type heapModel struct {
 	parent                 aff   // P(j) = floor((j+c)/d)
 	children               []aff // child_b(i) = a*i+b
 	methods                []*ssa.Function
+	rolesErr               string
 }
 
 // loadsField: v is a load of recv.f
@@ -89,31 +90,34 @@ func buildHeapModel(c *Ctx) *heapModel {
 			m.swapFn = fn
 		}
 	}
-	if m.swapFn == nil {
-		c.undecided("ANCHOR", "heapq swap", 0, "exchange method not found")
-		return nil
-	}
-	// sift functions: methods calling swap inside a loop
+	// sift functions, located by role: a method with one int parameter whose
+	// loop variable starts at that parameter and whose loop compares elements of
+	// q.data through q.cmp.  An exchange helper is optional.
 	for _, fn := range m.methods {
-		if fn == m.swapFn {
+		if fn == m.swapFn || len(fn.Params) != 2 || !isIntType(fn.Params[1].Type()) {
 			continue
 		}
-		var swapCall *ssa.Call
-		allInstrs(fn, func(in ssa.Instruction) {
-			if call, ok := in.(*ssa.Call); ok && staticCallee(&call.Call) == m.swapFn {
-				swapCall = call
-			}
-		})
-		if swapCall == nil {
+		if len(m.cmpIndexOperands(fn)) == 0 {
 			continue
 		}
-		// loop variable: a phi among the swap args
 		var iphi *ssa.Phi
-		for _, a := range swapCall.Call.Args[1:] {
-			if ph, ok := a.(*ssa.Phi); ok && len(ph.Block().Preds) == 2 {
-				// the loop variable is the phi in a block that has a back edge
-				iphi = ph
-				break
+		for _, b := range fn.Blocks {
+			for _, in := range b.Instrs {
+				ph, ok := in.(*ssa.Phi)
+				if !ok {
+					break
+				}
+				hasBack, fromParam := false, false
+				for i, e := range ph.Edges {
+					if b.Dominates(b.Preds[i]) {
+						hasBack = true
+					} else if e == ssa.Value(fn.Params[1]) {
+						fromParam = true
+					}
+				}
+				if hasBack && fromParam && iphi == nil {
+					iphi = ph
+				}
 			}
 		}
 		if iphi == nil {
@@ -133,9 +137,9 @@ func buildHeapModel(c *Ctx) *heapModel {
 			}
 		}
 		if kind == "" {
-			// sift-down: some phi of the loop header is compared with len(q.data) in the header
+			// sift-down: some value is compared with len(q.data) in the loop header
 			for _, in := range iphi.Block().Instrs {
-				if bo, ok := in.(*ssa.BinOp); ok && bo.Op == token.LSS {
+				if bo, ok := in.(*ssa.BinOp); ok && (bo.Op == token.LSS || bo.Op == token.LEQ) {
 					if ln, ok := isBuiltinCall(bo.Y, "len"); ok && isLoadOfField(ln.Call.Args[0], m.dataF) {
 						kind = "down"
 					}
@@ -145,21 +149,20 @@ func buildHeapModel(c *Ctx) *heapModel {
 		switch kind {
 		case "up":
 			if m.siftUp != nil {
-				c.undecided("ANCHOR", "heapq sift-up", fn.Pos(), "two candidates")
-				return nil
+				m.rolesErr = "two sift-up candidates"
+				return m
 			}
 			m.siftUp, m.upPhi = fn, iphi
 		case "down":
 			if m.siftDn != nil {
-				c.undecided("ANCHOR", "heapq sift-down", fn.Pos(), "two candidates")
-				return nil
+				m.rolesErr = "two sift-down candidates"
+				return m
 			}
 			m.siftDn, m.dnPhi = fn, iphi
 		}
 	}
 	if m.siftUp == nil || m.siftDn == nil {
-		c.undecided("ANCHOR", "heapq sift functions", 0, fmt.Sprintf("sift-up found: %v, sift-down found: %v", m.siftUp != nil, m.siftDn != nil))
-		return nil
+		m.rolesErr = fmt.Sprintf("sift-up found: %v, sift-down found: %v", m.siftUp != nil, m.siftDn != nil)
 	}
 	return m
 }
@@ -199,57 +202,62 @@ func runC05(c *Ctx) {
 	if m == nil {
 		return
 	}
+	if m.rolesErr != "" {
+		c.undecided("ANCHOR", "heapq sift functions", m.queueT.Obj().Pos(), m.rolesErr)
+		return
+	}
 	P := c.P
 	c.sawFn(fnName(m.siftUp))
 	c.sawFn(fnName(m.siftDn))
-	c.sawFn(fnName(m.swapFn))
+	if m.swapFn != nil {
+		c.sawFn(fnName(m.swapFn))
+	}
 	c.Extra["roles"] = map[string]string{"sift-up": fnName(m.siftUp), "sift-down": fnName(m.siftDn), "exchange": fnName(m.swapFn)}
 
 	// ---- parent form: the non-loop-variable argument of swap in sift-up
 	upName := fnName(m.siftUp)
 	var parentOK bool
-	allInstrs(m.siftUp, func(in ssa.Instruction) {
-		call, ok := in.(*ssa.Call)
-		if !ok || staticCallee(&call.Call) != m.swapFn {
+	for ei, a := range m.upPhi.Edges {
+		if !m.upPhi.Block().Dominates(m.upPhi.Block().Preds[ei]) || a == ssa.Value(m.upPhi) {
+			continue
+		}
+		f, ok := affOf(a, m.upPhi, nil, 0)
+		if !ok || f.a != 1 {
+			c.undecided("R-HEAP-INDEX", upName+":parent-form", m.upPhi.Pos(), "the index sift-up moves to is not of the form ⌊(i+c)/d⌋: "+sym(a))
 			return
 		}
-		for _, a := range call.Call.Args[1:] {
-			if a == m.upPhi {
-				continue
+		if parentOK && f != m.parent {
+			c.undecided("R-HEAP-INDEX", upName+":parent-form", m.upPhi.Pos(), "sift-up moves to two different parent forms")
+			return
+		}
+		m.parent = f
+		parentOK = true
+		// comparator compares element i with element parent
+		idxs := m.cmpIndexOperands(m.siftUp)
+		seenI, seenP := false, false
+		for _, ix := range idxs {
+			if ix == m.upPhi {
+				seenI = true
 			}
-			f, ok := affOf(a, m.upPhi, nil, 0)
-			if !ok || f.a != 1 {
-				c.undecided("R-HEAP-INDEX", upName+":parent-form", call.Pos(), "parent index is not of the form ⌊(i+c)/d⌋: "+sym(a))
-				return
-			}
-			m.parent = f
-			parentOK = true
-			// the loop variable must become the parent
-			lat := false
-			for _, e := range m.upPhi.Edges {
-				if e == a {
-					lat = true
-				}
-			}
-			if !lat {
-				c.bad("R-HEAP-INDEX", upName+":advance", call.Pos(), "after the exchange the loop variable does not move to the parent index")
-			}
-			// comparator compares element i with element parent
-			idxs := m.cmpIndexOperands(m.siftUp)
-			seenI, seenP := false, false
-			for _, ix := range idxs {
-				if ix == m.upPhi {
-					seenI = true
-				}
-				if ix == a || sym(ix) == sym(a) {
-					seenP = true
-				}
-			}
-			if !seenI || !seenP {
-				c.bad("R-HEAP-INDEX", upName+":compare", call.Pos(), "sift-up does not compare the element at i with the element at its parent index")
+			if ix == a || sym(ix) == sym(a) {
+				seenP = true
 			}
 		}
-	})
+		if !seenI || !seenP {
+			c.bad("R-HEAP-INDEX", upName+":compare", m.upPhi.Pos(), "sift-up does not compare the element at i with the element at its parent index")
+		}
+		// if an exchange helper is used, it must exchange exactly (i, parent)
+		allInstrs(m.siftUp, func(in ssa.Instruction) {
+			call, ok := in.(*ssa.Call)
+			if !ok || m.swapFn == nil || staticCallee(&call.Call) != m.swapFn {
+				return
+			}
+			x, y := call.Call.Args[1], call.Call.Args[2]
+			if !((x == ssa.Value(m.upPhi) && (y == a || sym(y) == sym(a))) || (y == ssa.Value(m.upPhi) && (x == a || sym(x) == sym(a)))) {
+				c.bad("R-HEAP-INDEX", upName+":advance", call.Pos(), "the exchange in sift-up is not between i and the parent index the loop moves to")
+			}
+		})
+	}
 	if !parentOK {
 		if len(c.Obligs) == 0 {
 			c.undecided("R-HEAP-INDEX", upName+":parent-form", m.siftUp.Pos(), "no parent index found")
@@ -331,7 +339,10 @@ func runC05(c *Ctx) {
 	}
 
 	// ---- R-HEAP-BIDIR
-	isSift := map[*ssa.Function]bool{m.siftUp: true, m.siftDn: true, m.swapFn: true}
+	isSift := map[*ssa.Function]bool{m.siftUp: true, m.siftDn: true}
+	if m.swapFn != nil {
+		isSift[m.swapFn] = true
+	}
 	nOver := 0
 	for _, fn := range m.methods {
 		if isSift[fn] {
@@ -712,11 +723,109 @@ func runC06(c *Ctx) {
 		return ok && sl.High != nil && (sl.High == k || sym(sl.High) == sym(k)) && sl.Low == nil
 	}
 	_ = eff
+	// fullRangeNotifyAfter: a loop after `at` that reports every index of q.data.
+	fullRangeNotifyAfter := func(fn *ssa.Function, at ssa.Instruction) (bool, string) {
+		found := false
+		why := ""
+		allInstrs(fn, func(in2 ssa.Instruction) {
+			call, ok := in2.(*ssa.Call)
+			if !ok || !isLoadOfField(call.Call.Value, m.moveF) || len(call.Call.Args) != 2 {
+				return
+			}
+			ph, ok := call.Call.Args[1].(*ssa.Phi)
+			if !ok || !isNotify(in2, ph) {
+				return
+			}
+			if !dominatesInstr(at, call) {
+				why = "the reporting loop does not come after the bulk write"
+				return
+			}
+			full := false
+			for i, e := range ph.Edges {
+				pred := ph.Block().Preds[i]
+				if ph.Block().Dominates(pred) {
+					continue
+				}
+				if f, ok := affLen(e, m); ok && f == (aff{1, -1, 1}) {
+					stepDown, guard := false, false
+					for j, e2 := range ph.Edges {
+						if ph.Block().Dominates(ph.Block().Preds[j]) {
+							if f2, ok := affOf(e2, ph, nil, 0); ok && f2 == (aff{1, -1, 1}) {
+								stepDown = true
+							}
+						}
+					}
+					for _, r := range referrersOf(ph) {
+						if bo, ok := r.(*ssa.BinOp); ok && bo.X == ph && bo.Op == token.GEQ && isConstInt(bo.Y, 0) {
+							guard = true
+						}
+					}
+					full = stepDown && guard
+				} else if isConstInt(e, 0) {
+					stepUp, guard := false, false
+					for j, e2 := range ph.Edges {
+						if ph.Block().Dominates(ph.Block().Preds[j]) {
+							if f2, ok := affOf(e2, ph, nil, 0); ok && f2 == (aff{1, 1, 1}) {
+								stepUp = true
+							}
+						}
+					}
+					for _, r := range referrersOf(ph) {
+						if bo, ok := r.(*ssa.BinOp); ok && bo.X == ph && bo.Op == token.LSS {
+							if ln, ok := isBuiltinCall(bo.Y, "len"); ok && isLoadOfField(ln.Call.Args[0], m.dataF) {
+								guard = true
+							}
+						}
+					}
+					full = stepUp && guard
+				}
+			}
+			if full {
+				found = true
+			} else if why == "" {
+				why = "the reporting loop does not cover every index"
+			}
+		})
+		if !found && why == "" {
+			why = "no reporting loop after the bulk write"
+		}
+		return found, why
+	}
 	for _, fn := range m.methods {
 		name := fnName(fn)
 		allInstrs(fn, func(in ssa.Instruction) {
 			switch x := in.(type) {
 			case *ssa.Store:
+				// wholesale replacement of the queue or of its buffer by foreign storage
+				if x.Addr == ssa.Value(fn.Params[0]) {
+					c.sawFn(name)
+					found, why := fullRangeNotifyAfter(fn, x)
+					c.judge(found, "R-MOVE-NOTIFY", name+":*q=", x.Pos(), "wholesale replacement followed by a full-range report", "the queue is replaced wholesale (any element may have moved) and "+why)
+					return
+				}
+				if fa, ok := x.Addr.(*ssa.FieldAddr); ok && fa.X == ssa.Value(fn.Params[0]) {
+					if _, f := fieldVarOf(fa); sameField(f, m.dataF) {
+						own := false
+						switch v := x.Val.(type) {
+						case *ssa.MakeSlice:
+							own = true
+						case *ssa.Slice:
+							own = isLoadOfField(v.X, m.dataF)
+						case *ssa.Call:
+							if ap, ok := isBuiltinCall(v, "append"); ok && isLoadOfField(ap.Call.Args[0], m.dataF) {
+								own = true
+							}
+						case *ssa.Const:
+							own = v.Value == nil
+						}
+						if !own {
+							c.sawFn(name)
+							found, why := fullRangeNotifyAfter(fn, x)
+							c.judge(found, "R-MOVE-NOTIFY", name+":data=foreign", x.Pos(), "foreign buffer installed and fully reported", "the buffer is replaced by storage ordered elsewhere and "+why)
+							return
+						}
+					}
+				}
 				if k, ok := m.dataIndex(x.Addr); ok {
 					c.sawFn(name)
 					key := fmt.Sprintf("%s:slot[%s]", name, ksym(k))
@@ -759,78 +868,11 @@ func runC06(c *Ctx) {
 			case *ssa.Call:
 				if cp, ok := isBuiltinCall(x, "copy"); ok && isLoadOfField(cp.Call.Args[0], m.dataF) {
 					c.sawFn(name)
-					key := name + ":copy"
-					// a loop after the copy over every index with notify(i)
-					found := false
-					var why string
-					allInstrs(fn, func(in2 ssa.Instruction) {
-						call, ok := in2.(*ssa.Call)
-						if !ok || !isLoadOfField(call.Call.Value, m.moveF) || len(call.Call.Args) != 2 {
-							return
-						}
-						ph, ok := call.Call.Args[1].(*ssa.Phi)
-						if !ok || !isNotify(in2, ph) {
-							return
-						}
-						if !dominatesInstr(x, call) {
-							why = "the reporting loop does not come after the copy"
-							return
-						}
-						// full range: init len-1 step -1 guard >=0, or init 0 step +1 guard < len
-						full := false
-						for i, e := range ph.Edges {
-							pred := ph.Block().Preds[i]
-							if ph.Block().Dominates(pred) {
-								continue
-							}
-							if f, ok := affLen(e, m); ok && f == (aff{1, -1, 1}) {
-								// down loop
-								stepDown, guard := false, false
-								for j, e2 := range ph.Edges {
-									if ph.Block().Dominates(ph.Block().Preds[j]) {
-										if f2, ok := affOf(e2, ph, nil, 0); ok && f2 == (aff{1, -1, 1}) {
-											stepDown = true
-										}
-									}
-								}
-								for _, r := range referrersOf(ph) {
-									if bo, ok := r.(*ssa.BinOp); ok && bo.X == ph && bo.Op == token.GEQ && isConstInt(bo.Y, 0) {
-										guard = true
-									}
-								}
-								full = stepDown && guard
-							} else if isConstInt(e, 0) {
-								stepUp, guard := false, false
-								for j, e2 := range ph.Edges {
-									if ph.Block().Dominates(ph.Block().Preds[j]) {
-										if f2, ok := affOf(e2, ph, nil, 0); ok && f2 == (aff{1, 1, 1}) {
-											stepUp = true
-										}
-									}
-								}
-								for _, r := range referrersOf(ph) {
-									if bo, ok := r.(*ssa.BinOp); ok && bo.X == ph && bo.Op == token.LSS {
-										if ln, ok := isBuiltinCall(bo.Y, "len"); ok && isLoadOfField(ln.Call.Args[0], m.dataF) {
-											guard = true
-										}
-									}
-								}
-								full = stepUp && guard
-							}
-						}
-						if full {
-							found = true
-						} else {
-							why = "the reporting loop does not cover every index"
-						}
-					})
+					found, why := fullRangeNotifyAfter(fn, x)
 					if found {
-						c.ok("R-MOVE-NOTIFY", key, x.Pos(), "every slot reported by a full-range loop after the copy")
+						c.ok("R-MOVE-NOTIFY", name+":copy", x.Pos(), "every slot reported by a full-range loop after the copy")
 					} else {
-						if why == "" {
-							why = "no reporting loop after the bulk copy"
-						}
-						c.bad("R-MOVE-NOTIFY", key, x.Pos(), why)
+						c.bad("R-MOVE-NOTIFY", name+":copy", x.Pos(), why)
 					}
 				}
 			}
@@ -841,7 +883,7 @@ func runC06(c *Ctx) {
 		okRet := false
 		allInstrs(add, func(in ssa.Instruction) {
 			if ret, ok := in.(*ssa.Return); ok && len(ret.Results) == 1 {
-				if call, ok := ret.Results[0].(*ssa.Call); ok && staticCallee(&call.Call) == m.siftUp {
+				if call, ok := ret.Results[0].(*ssa.Call); ok && m.siftUp != nil && staticCallee(&call.Call) == m.siftUp {
 					if ln, ok := isBuiltinCall(call.Call.Args[1], "len"); ok && isLoadOfField(ln.Call.Args[0], m.dataF) {
 						okRet = true
 					}
